@@ -145,7 +145,7 @@ def finish(res: Result, tier: str, seed: int, t0: float, selftest: Optional[dict
 
     def show(i: Instance):
         return {"rule": i.rule, "function": i.function, "descriptor": i.descriptor,
-                "verdict": i.verdict, "where": i.where, "detail": i.detail[:300]}
+                "verdict": i.verdict, "where": i.where, "detail": i.detail[:700]}
 
     samples = [show(i) for i in (viol + oks)[:40]]
     cov = {
